@@ -83,7 +83,9 @@ SameRepo == conf.pair = "samerepo"
 SameReg == conf.pair \in {"samerepo", "samereg"}
 RefApiSrc == conf.refApiSrc /\ ~SrcIsDir
 RefApiTgt == IF SameReg THEN RefApiSrc ELSE conf.refApiTgt /\ ~TgtIsDir
-HasFB == ~RefApiSrc                        \* the source lists referrers through fall-back tags
+\* the source holds fall-back indexes under sha256-<hex> tags: it lists referrers through them (no API), or it
+\* has the API and the tags are left over (conf.leftover) - then they are ordinary digest tags
+HasFB == ~RefApiSrc \/ conf.leftover
 FBNodes == IF HasFB THEN {f[1] : f \in Sh.fbs} ELSE {}
 Mans == DOMAIN Sh.mans \cup FBNodes
 Kind(n) == IF n \in DOMAIN Sh.mans THEN Sh.mans[n] ELSE "index"
@@ -98,7 +100,7 @@ FbTag(n) == "fb:" \o n
 FbNode(n) == "FB:" \o n
 \* digest tags of n at the source: <<tag, manifest it resolves to, is the referrers fall-back tag>>
 DTagsOf(n) == {<<d[1], d[3], FALSE>> : d \in {d \in Sh.dtags : d[2] = n}} \cup
-              (IF FbNode(n) \in FBNodes /\ n \notin Sh.long THEN {<<FbTag(n), FbNode(n), TRUE>>} ELSE {})
+              (IF FbNode(n) \in FBNodes /\ n \notin Sh.long THEN {<<FbTag(n), FbNode(n), ~RefApiSrc>>} ELSE {})
 SelKid(k) == /\ (k[2] \in {"entry", "bentry", "uentry"} /\ conf.plats) => k[3] = "linux/amd64"
              /\ k[2] = "ext" => conf.inclext
 RECURSIVE SeqOfSet(_)
@@ -315,8 +317,10 @@ MSpawn(i) ==
 \* the parent receives the result of child c from waitCh
 ChildErr(c) == LET r == tasks[c].res IN
                IF r = "ok" THEN "none"
-               ELSE IF r = "loop" THEN (IF tasks[c].via \in {"ref", "dtag"} THEN "none" ELSE "other")
-               ELSE r
+               ELSE IF r = "loop" THEN (IF tasks[c].via \in {"ref", "dtag"} THEN "none" ELSE "loop")
+               ELSE r                    \* (ErrLoopDetected travels up through index entries until a referrer /
+                                         \* digest-tag goroutine turns it into a finalFn retry)
+\* error latch values: none | canceled | other | loop
 NewErr(cur, r) == IF cur = "none" THEN r
                   ELSE IF cur = "canceled" THEN (IF FixWaitErr /\ r = "none" THEN "canceled" ELSE r)
                   ELSE cur
